@@ -74,12 +74,14 @@ def generate(rng, prop, tier):
     if km.get('enc'):
         pool = pool[:6] + ['price 5 \u20ac', '\u03b1\u03b2']        # text outside latin-1 / cp1252
     tol = deep = None
-    if rng.chance(0.15) and not (kind == 'pickle' and arg == 'json') and fn in ('f1', 'f2', 'f3', 'f6', 'f9'):
-        # rounding configured: keys must not depend on what ELSE the process rounded before (signed zeros,
-        # floats equal after rounding)
+    if rng.chance(0.15) and not (kind == 'pickle' and arg == 'json') and kind != 'raw' and fn in ('f1', 'f2', 'f3', 'f6', 'f9'):
+        # rounding configured: keys must not depend on what ELSE the process rounded before (signed zeros).
+        # Not with the raw keymap: its keys compare with ==, so 0, 0.0 and -0.0 are ONE key there. The pool's own
+        # floats go (1.5 and 2.5 both round to 2.0); deep rounding rebuilds dicts through **kwds, so dict
+        # arguments with non-string keys are not its domain
         tol, deep = rng.choice([0, 1, 2]), rng.chance(0.7)
-        # (deep rounding rebuilds dicts through **kwds: dict arguments with non-string keys are not its domain)
-        pool = [q for q in pool if not (isinstance(q, dict) and '$d' in q)][:5] + [0.0, {'$f': '-0.0'}, 2.5, {'$t': [0.0, 1.5]}, {'$t': [{'$f': '-0.0'}, 1.5]}]
+        pool = [q for q in pool if not isinstance(q, float) and not (isinstance(q, dict) and '$d' in q)][:5] + \
+            [0.0, {'$f': '-0.0'}, 7.26, {'$t': [0.0, 1.5]}, {'$t': [{'$f': '-0.0'}, 1.5]}]
     calls = []
     for _ in range(rng.randint(3, 12)):
         c = M.logical_call(rng, fn, [dec(p) for p in pool], True)
